@@ -54,7 +54,7 @@ VARIANTS = {
     'verif': ['-O2', '-maes'] + COMMON,
     # hooks off: exactly CMake's flags; used to check the guard-off tree
     'plain': ['-O2', '-maes', '-DNDEBUG', '-fPIC', '-w'],
-    'tsan': ['-O1', '-g', '-maes', '-fsanitize=thread'] + COMMON,
+    'tsan': ['-O1', '-g', '-maes', '-fsanitize=thread', '-fno-builtin'] + COMMON,
     'asan': ['-O1', '-g', '-maes', '-fsanitize=address', '-fno-omit-frame-pointer'] + COMMON,
     # generic C++ fallbacks: no SSE2 vector intrinsics, no AES-NI, no __int128, fenv rounding
     'portable': ['-O2', '-U__SSE2__', '-U__SSE__', '-U__AES__', '-U__SIZEOF_INT128__',
@@ -127,6 +127,9 @@ def build_lib(variant='verif'):
     with Lock('build-' + variant):
         if os.path.exists(os.path.join(bdir, '.done')):
             os.utime(bdir)
+            if not os.path.exists(os.path.join(bdir, 'librxverif.so')):
+                san = [f for f in flags if f.startswith('-fsanitize')]
+                sh(['g++', '-shared', '-Wl,-z,now', '-Wl,-z,relro', '-o', os.path.join(bdir, 'librxverif.so')] + san + sorted(glob.glob(os.path.join(bdir, '*.o'))) + ['-lpthread'])
             return bdir
         shutil.rmtree(bdir, ignore_errors=True)
         os.makedirs(bdir)
@@ -150,13 +153,17 @@ def build_lib(variant='verif'):
             raise Infra('build of %s failed in %s:\n%s' % (variant, bad[0][0], bad[0][1][-3000:]))
         lib = os.path.join(bdir, 'librandomx.a')
         sh(['ar', 'rcs', lib] + [r[3] for r in res])
+        # the same objects as a private shared object: its writable segments (.data/.bss) contain the
+        # library's globals and nothing of a harness, so they can be snapshotted and compared per call
+        san = [f for f in flags if f.startswith('-fsanitize')]
+        sh(['g++', '-shared', '-Wl,-z,now', '-Wl,-z,relro', '-o', os.path.join(bdir, 'librxverif.so')] + san + [r[3] for r in res] + ['-lpthread'])
         open(os.path.join(bdir, '.done'), 'w').write('%f' % (time.time() - t0))
         _prune(os.path.join(WORK, 'build', variant + '-*'), 2)
         log('[build] %s in %.1fs -> %s' % (variant, time.time() - t0, bdir))
     return bdir
 
 
-def build_harness(name, variant='verif', extra=(), libs=('-lpthread',), srcs=None):
+def build_harness(name, variant='verif', extra=(), libs=('-lpthread',), srcs=None, shared=False):
     """compile harness/<name>.cpp against the library built from /repo; returns executable path"""
     bdir = build_lib(variant)
     srcs = srcs or [name + '.cpp']
@@ -166,14 +173,17 @@ def build_harness(name, variant='verif', extra=(), libs=('-lpthread',), srcs=Non
         if os.path.exists(p):
             h.update(open(p, 'rb').read())
     h.update(' '.join(extra).encode())
-    exe = os.path.join(bdir, '%s-%s' % (name, h.hexdigest()[:10]))
+    exe = os.path.join(bdir, '%s-%s%s' % (name, h.hexdigest()[:10], '-so' if shared else ''))
     with Lock('harness-%s-%s' % (variant, name)):
         if os.path.exists(exe):
             return exe
         flags = [f for f in VARIANTS[variant]]
         cmd = ['g++', '-std=gnu++17'] + flags + list(extra) + ['-I', os.path.join(REPO, 'src'), '-I', HARNESS]
         cmd += [os.path.join(HARNESS, s) for s in srcs]
-        cmd += ['-o', exe + '.tmp', os.path.join(bdir, 'librandomx.a')] + list(libs)
+        if shared:
+            cmd += ['-o', exe + '.tmp', '-rdynamic', '-L', bdir, '-lrxverif', '-Wl,-rpath,' + bdir, '-Wl,-z,now', '-ldl'] + list(libs)
+        else:
+            cmd += ['-o', exe + '.tmp', os.path.join(bdir, 'librandomx.a')] + list(libs)
         rc, out = sh(cmd, timeout=900, check=False)
         if rc != 0:
             raise Infra('harness %s (%s) failed to build:\n%s' % (name, variant, out[-4000:]))
@@ -417,6 +427,8 @@ class Check:
                 if key not in [x[0] for x in self.known]:
                     self.known.append((key, k['text']))
                 return
+        if key in [v[0] for v in self.violations]:
+            return          # same failing input/site already reported in this run
         d = os.path.join(WORK, 'replay', self.pid)
         os.makedirs(d, exist_ok=True)
         path = os.path.join(d, '%s-%d.json' % (re.sub(r'[^A-Za-z0-9_.-]', '_', key)[:60], len(self.violations)))
